@@ -5,6 +5,15 @@ From Coq Require Import List Bool Arith Lia.
 From SV Require Import C12.Ops C12.Spec.
 Import ListNotations.
 
+Lemma NoDup_app_snoc' {A} (l : list A) a : NoDup l -> ~ In a l -> NoDup (l ++ [a]).
+Proof.
+  intros ND Hn. induction l as [|x r IH]; cbn.
+  - constructor; auto; constructor.
+  - inversion ND; subst. constructor.
+    + intros Hin. apply in_app_or in Hin. destruct Hin as [Hin|[->|[]]]; auto. apply Hn. left. auto.
+    + apply IH; auto. intros H. apply Hn. right. auto.
+Qed.
+
 Section SpecLemmas.
   Context {K V : Type}.
   Variable eqb : K -> K -> bool.
@@ -103,7 +112,7 @@ Section SpecLemmas.
     destruct (eqb y x) eqn:E; cbn.
     - apply eqb_spec in E. subst y. rewrite IH. rewrite filter_filter.
       apply filter_ext_in'. intros z _. destruct (eqb z x); auto.
-    - rewrite E. cbn. f_equal. rewrite IH. rewrite !filter_filter.
+    - f_equal. rewrite IH. rewrite !filter_filter.
       apply filter_ext_in'. intros z _. apply andb_comm.
   Qed.
 
@@ -161,10 +170,12 @@ Section SpecLemmas.
     - rewrite sp_insert_none by auto. destruct (memb x (keys B)) eqn:E; cbn.
       + apply IH; auto.
       + rewrite IH by (apply AllNone_app; auto; intros kv [<-|[]]; auto).
-        rewrite <- app_assoc. cbn. do 2 f_equal.
-        rewrite <- dedup_filter_ne. f_equal. rewrite filter_filter.
-        apply filter_ext_in'. intros y _. rewrite keys_app, memb_app. cbn.
-        rewrite orb_false_r, negb_orb. auto.
+        assert (Hkey : dedup (filter (fun k => negb (memb k (keys (B ++ [(x, vnone)])))) r) =
+                       filter (fun y => negb (eqb y x)) (dedup (filter (fun k => negb (memb k (keys B))) r))).
+        { rewrite <- dedup_filter_ne. f_equal. rewrite filter_filter.
+          apply filter_ext_in'. intros y _. rewrite keys_app, memb_app. cbn.
+          rewrite orb_false_r, negb_orb. auto. }
+        rewrite Hkey. rewrite <- app_assoc. reflexivity.
   Qed.
 
   (* insert all of a duplicate-free list into the empty list: the list itself *)
@@ -180,5 +191,184 @@ Section SpecLemmas.
         apply memb_in in Hm. rewrite keys_app in ND. cbn in ND. apply NoDup_remove_2 in ND.
         exfalso. apply ND. apply in_or_app. auto. }
       rewrite Hk. rewrite IH; rewrite <- app_assoc; auto.
+  Qed.
+
+  (* ---- keys under insert ---- *)
+  Lemma keys_sp_replace (l : alist) k v : keys (sp_replace l k v) = keys l.
+  Proof.
+    induction l as [|[x w] r IH]; cbn; auto. destruct (eqb k x); cbn; auto. f_equal. auto.
+  Qed.
+  Lemma has_sp_insert (l : alist) x v k : has (sp_insert l x v) k = has l k || eqb k x.
+  Proof.
+    rewrite !has_memb. unfold Spec.sp_insert. generalize (has_memb l x). unfold has.
+    destruct (sp_lookup l x); intros Hm.
+    - rewrite keys_sp_replace. destruct (eqb k x) eqn:E; [|rewrite orb_false_r; auto].
+      apply eqb_spec in E. subst. rewrite <- Hm. auto.
+    - rewrite keys_app, memb_app. cbn. rewrite orb_false_r. auto.
+  Qed.
+  Lemma has_in (l : alist) k : has l k = true <-> In k (keys l).
+  Proof. rewrite has_memb. apply memb_in. Qed.
+
+  (* ---- symmetric difference (repaired code: membership decided against l) ---- *)
+  Definition symdiff_step (l : alist) (d : alist) (x : K) : alist :=
+    if has l x then sp_delete d x else sp_insert d x vnone.
+
+  Lemma filter_app' {A} (p : A -> bool) a b : filter p (a ++ b) = filter p a ++ filter p b.
+  Proof. induction a as [|x r IH]; cbn; auto. destruct (p x); cbn; rewrite IH; auto. Qed.
+
+  Lemma symdiff_fold (l : alist) : forall ks (A1 : alist) N,
+    NoDup (keys A1) -> (forall k, In k (keys A1) -> In k (keys l)) -> AllNone A1 ->
+    NoDup N -> (forall k, In k N -> ~ In k (keys l)) ->
+    fold_left (symdiff_step l) ks (A1 ++ elems N) =
+    filter (fun kv => negb (memb (fst kv) ks)) A1 ++
+    elems (N ++ dedup (filter (fun k => negb (memb k (keys l)) && negb (memb k N)) ks)).
+  Proof.
+    induction ks as [|x r IH]; intros A1 N ND1 Sub AN NDN Dis; cbn [fold_left].
+    - cbn. rewrite app_nil_r. rewrite filter_all; auto.
+    - assert (NDall : NoDup (keys (A1 ++ elems N))).
+      { rewrite keys_app, keys_elems. clear - ND1 NDN Sub Dis. induction (keys A1) as [|y q IHq]; cbn; auto.
+        inversion ND1; subst. constructor.
+        - intros H. apply in_app_or in H. destruct H as [H|H]; auto. apply (Dis y H). apply Sub. left. auto.
+        - apply IHq; auto. intros; apply Sub; right; auto. }
+      unfold symdiff_step at 2. destruct (has l x) eqn:Hx.
+      + (* x is an element of the left operand: remove it (idempotent) *)
+        rewrite sp_delete_filter by auto. rewrite filter_app'.
+        assert (HN : filter (fun kv : K * V => negb (eqb (fst kv) x)) (elems N) = elems N).
+        { apply filter_all. intros kv Hkv. unfold Spec.elems in Hkv. apply in_map_iff in Hkv.
+          destruct Hkv as (y & <- & Hy). cbn. destruct (eqb y x) eqn:E; auto. apply eqb_spec in E. subst y.
+          exfalso. apply (Dis x Hy). apply has_in. auto. }
+        rewrite HN. rewrite IH; auto.
+        * rewrite filter_filter. f_equal.
+          { apply filter_ext_in'. intros kv _. cbn. rewrite negb_orb. auto. }
+          cbn [filter]. rewrite <- has_memb, Hx. cbn. auto.
+        * apply keys_filter_nodup; auto.
+        * intros k Hk. apply Sub. unfold keys in *. apply in_map_iff in Hk. destruct Hk as (kv & <- & Hk).
+          apply filter_In in Hk. apply in_map. tauto.
+        * intros kv Hkv. apply filter_In in Hkv. apply AN. tauto.
+      + (* x is not in the left operand: append it once *)
+        assert (HA1 : memb x (keys A1) = false).
+        { destruct (memb x (keys A1)) eqn:E; auto. apply memb_in in E. apply Sub in E.
+          apply has_in in E. congruence. }
+        assert (Hf : filter (fun kv : K * V => negb (memb (fst kv) (x :: r))) A1 =
+                     filter (fun kv => negb (memb (fst kv) r)) A1).
+        { apply filter_ext_in'. intros kv Hkv. cbn. destruct (eqb (fst kv) x) eqn:E; auto.
+          apply eqb_spec in E. subst x. exfalso.
+          assert (In (fst kv) (keys A1)) by (apply in_map; auto). apply memb_in in H. congruence. }
+        rewrite Hf. rewrite sp_insert_none by (apply AllNone_app; auto; apply AllNone_elems).
+        rewrite keys_app, keys_elems, memb_app, HA1. cbn [orb filter].
+        rewrite <- has_memb, Hx. cbn [negb andb].
+        destruct (memb x N) eqn:HxN; cbn [negb].
+        * apply IH; auto.
+        * rewrite <- app_assoc. change [(x, vnone)] with (elems [x]). rewrite <- elems_app.
+          rewrite IH; auto.
+          -- f_equal. f_equal. rewrite <- app_assoc. cbn. do 2 f_equal.
+             rewrite <- dedup_filter_ne. f_equal. rewrite filter_filter.
+             apply filter_ext_in'. intros y _. rewrite memb_app. cbn.
+             rewrite orb_false_r, negb_orb, andb_assoc. auto.
+          -- apply NoDup_app_snoc'; auto. intros H. apply memb_in in H. congruence.
+          -- intros k Hk. apply in_app_or in Hk. destruct Hk as [Hk|[<-|[]]]; auto.
+             intros H. apply has_in in H. congruence.
+  Qed.
+
+  Lemma symdiff_ok (l : alist) ks :
+    NoDup (keys l) -> fold_left (symdiff_step l) ks (as_set l) = sp_symdiff eqb vnone l ks.
+  Proof.
+    intros ND. generalize (symdiff_fold l ks (as_set l) []). cbn [Spec.elems map app]. rewrite app_nil_r.
+    intros H. rewrite H; auto.
+    - unfold sp_symdiff, sp_diff, Spec.elems. f_equal. f_equal. f_equal. apply filter_ext_in'. intros k _.
+      rewrite andb_true_r. auto.
+    - rewrite keys_as_set. auto.
+    - intros k. rewrite keys_as_set. auto.
+    - apply AllNone_as_set.
+    - constructor.
+  Qed.
+
+  (* ---- intersection (repaired code: collect, then list in the order of l) ---- *)
+  Definition inter_common (l : alist) (ks : list K) : alist :=
+    fold_left (fun c x => if has l x then sp_insert c x vnone else c) ks [].
+
+  Lemma has_inter_fold (l : alist) ks : forall c k,
+    has (fold_left (fun c x => if has l x then sp_insert c x vnone else c) ks c) k =
+    has c k || (memb k ks && has l k).
+  Proof.
+    induction ks as [|x r IH]; intros c k; cbn [fold_left].
+    - cbn. rewrite orb_false_r. auto.
+    - rewrite IH. cbn [Spec.memb]. destruct (has l x) eqn:Hx.
+      + rewrite has_sp_insert. destruct (eqb k x) eqn:E; cbn.
+        * apply eqb_spec in E. subst. rewrite Hx. rewrite !orb_true_r. auto.
+        * rewrite orb_false_r. auto.
+      + destruct (eqb k x) eqn:E; cbn; auto.
+        apply eqb_spec in E. subst. rewrite Hx. rewrite !andb_false_r. auto.
+  Qed.
+
+  Lemma cond_insert_all (p : K -> bool) : forall (xs z : alist),
+    NoDup (keys z ++ keys xs) ->
+    fold_left (fun z kv => if p (fst kv) then sp_insert z (fst kv) vnone else z) xs z =
+    z ++ filter (fun kv => p (fst kv)) (as_set xs).
+  Proof.
+    induction xs as [|[k v] r IH]; intros z ND; cbn [fold_left].
+    - cbn. rewrite app_nil_r. auto.
+    - cbn [fst snd Spec.as_set map filter]. destruct (p k) eqn:Hp.
+      + assert (Hk : sp_lookup z k = None).
+        { generalize (has_memb z k). unfold has. destruct (sp_lookup z k); auto. intros Hm. symmetry in Hm.
+          apply memb_in in Hm. cbn in ND. apply NoDup_remove_2 in ND. exfalso. apply ND. apply in_or_app. auto. }
+        unfold Spec.sp_insert at 2. rewrite Hk. rewrite IH.
+        * rewrite <- app_assoc. auto.
+        * rewrite keys_app. cbn. rewrite <- app_assoc. auto.
+      + rewrite IH; auto. cbn in ND. apply NoDup_remove_1 in ND. auto.
+  Qed.
+
+  Lemma inter_ok (l : alist) ks :
+    NoDup (keys l) ->
+    fold_left (fun z kv => if has (inter_common l ks) (fst kv) then sp_insert z (fst kv) vnone else z) l [] =
+    sp_inter eqb vnone l ks.
+  Proof.
+    intros ND. rewrite cond_insert_all by auto. cbn [app]. unfold sp_inter.
+    apply filter_ext_in'. intros kv Hkv. unfold inter_common. rewrite has_inter_fold. cbn [has Spec.sp_lookup orb].
+    assert (In (fst kv) (keys l)).
+    { rewrite <- keys_as_set. apply in_map. auto. }
+    apply has_in in H. rewrite H. apply andb_true_r.
+  Qed.
+
+  (* ---- keys of an update / dict union: left keys first, then the new ones ---- *)
+  Lemma keys_sp_insert (l : alist) k v :
+    keys (sp_insert l k v) = if memb k (keys l) then keys l else keys l ++ [k].
+  Proof.
+    unfold Spec.sp_insert. rewrite <- has_memb. unfold has. destruct (sp_lookup l k).
+    - apply keys_sp_replace.
+    - rewrite keys_app. auto.
+  Qed.
+
+  Lemma keys_sp_update xs : forall (B : alist),
+    keys (sp_update eqb B xs) = keys B ++ dedup (filter (fun k => negb (memb k (keys B))) (keys xs)).
+  Proof.
+    unfold sp_update. induction xs as [|[x v] r IH]; intros B; cbn [fold_left fst snd].
+    - cbn. rewrite app_nil_r. auto.
+    - rewrite IH. rewrite keys_sp_insert. change (keys ((x, v) :: r)) with (x :: keys r). cbn [filter].
+      destruct (memb x (keys B)) eqn:E; cbn [negb]; auto.
+      rewrite <- app_assoc. cbn [app Spec.dedup]. do 2 f_equal.
+      rewrite <- dedup_filter_ne. f_equal. rewrite filter_filter.
+      apply filter_ext_in'. intros y _. rewrite memb_app. cbn.
+      rewrite orb_false_r, negb_orb. auto.
+  Qed.
+
+  Lemma sp_lookup_in (l : alist) k v : NoDup (keys l) -> (sp_lookup l k = Some v <-> In (k, v) l).
+  Proof.
+    induction l as [|[x w] r IH]; cbn; intros ND; [split; [discriminate|contradiction]|].
+    inversion ND as [|? ? Hx ND']; subst. destruct (eqb k x) eqn:E.
+    - apply eqb_spec in E. subst x. split.
+      + intros [= ->]. auto.
+      + intros [[= ->]|H]; auto. exfalso. apply Hx. apply (in_map fst) in H. auto.
+    - rewrite IH by auto. split; auto. intros [[= -> ->]|H]; auto. rewrite eqb_refl' in E. discriminate.
+  Qed.
+
+  Lemma sp_lookup_insert_same (l : alist) k v : sp_lookup (sp_insert l k v) k = Some v.
+  Proof.
+    unfold Spec.sp_insert. destruct (sp_lookup l k) eqn:E.
+    - induction l as [|[x w] r IH]; cbn in *; [discriminate|].
+      destruct (eqb k x) eqn:Ex; cbn; rewrite Ex; auto.
+    - induction l as [|[x w] r IH]; cbn in *.
+      + rewrite eqb_refl'. auto.
+      + destruct (eqb k x) eqn:Ex; [discriminate|auto].
   Qed.
 End SpecLemmas.
